@@ -38,6 +38,14 @@ def run(R):
               "[1,100] x [1,100c]), ranges, default gaussian and Poisson fits asserted with the same scale-aware tolerances "
               "(2e-2 (1 + c) capture units); a fit that reports non-convergence there is counted; the high-accuracy pair is recorded only "
               "(its absolute 1e-10 gaps are unattainable on captures of 1e4). "
+              "Membership is further compared for targets next to the surface of the gamut in all directions, mostly inside its "
+              "axis-aligned bounding box: captures of 8 random corners of the intensity box moved radially about the gamut centre by "
+              "factors 1 +- e, e = 2^-2..2^-9. "
+              "Every asserted system also has a third twin in VERY large capture units (c = 2^8..2^13 <= 1e4, s in {1/4,1/2,2,4} "
+              "keeping its bounds in [0.05,10]; its captures are >= 1 wherever the original's are - C15's regime has no upper limit "
+              "on captures): gamut membership of all rows (asserted row by row where the original's captures lie in [1,100]) and, for "
+              "under-determined systems, range_of_solutions ends (x 1/s, 1e-8 of the range) - both are geometry / linear algebra "
+              "without a solver tolerance; fits are not asserted there. "
               "Non-trivial: lb > 0 or an active bound / out-of-gamut target.")
     HIGH = dict(solver="CLARABEL", tol_gap_abs=1e-10, tol_gap_rel=1e-10, tol_feas=1e-10, max_iter=500)
     stress = []
@@ -148,13 +156,29 @@ def run(R):
                 xf = np.where(at_ub, ub, lb + dyadic(r3, 0.25, 0.75, 3, size=ns) * (ub - lb))
             rows_n += [lb + (1 + e) * (xf - lb), lb + (1 - e) * (xf - lb)]; side_n += [False, True]
         Bn = np.array(rows_n) @ A.T + base; side_n = np.array(side_n)
-        Bm = np.vstack([B, Bc, Bn]); Bm2 = Bm * cc
+        # membership only: targets next to the surface of the gamut in ALL directions, most of them inside its axis-aligned bounding
+        # box: the captures of random corners of the box of intensities moved radially with respect to the centre of the gamut (the
+        # capture of the mid-point of the box, its centre of symmetry) by factors 1 + e and 1 - e, e = 2^-2 .. 2^-9 of their distance
+        # to the centre. Where the capture map is one-to-one every corner capture is a vertex of the gamut ('+' outside, '-' inside);
+        # for under-determined systems some corner captures are interior points (both sides inside). No ground truth is needed: the
+        # clause compares the two twins' decisions.
+        r4 = R.rng(4, si)
+        centre = (0.5 * (lb + ub)) @ A.T + base
+        rows_r, side_r = [], []
+        for j in range(8):
+            corner = np.where(r4.random(ns) < 0.5, ub, lb)
+            if np.all(corner == ub) or np.all(corner == lb):
+                corner = corner.copy(); jj = int(r4.integers(ns)); corner[jj] = lb[jj] if corner[jj] == ub[jj] else ub[jj]
+            pc = corner @ A.T + base; e = 2.0 ** -(2 + j)
+            rows_r += [centre + (1 + e) * (pc - centre), centre + (1 - e) * (pc - centre)]; side_r += [False, True]
+        Br = np.array(rows_r); side_r = np.array(side_r)
+        Bm = np.vstack([B, Bc, Bn, Br]); Bm2 = Bm * cc
         # the regime of the asserted clause: captures >= 1 (and <= 100; the twin in large capture units: <= 100 c) in BOTH twins, row by row
         hi2 = 100.0 * cc if wide else 100.0
         inreg = (Bm.min(1) >= 1) & (Bm2.min(1) >= 1) & (Bm.max(1) <= 100) & (Bm2.max(1) <= hi2)
         inreg[:len(B)] = True      # (the rows used so far keep their status)
         c = dict(k=k, nf=nf, ns=ns, A=A, lb=lb, ub=ub, baseline=base, s=s, c=cc, asserted=asserted, B=B, whole_bounds=wholeb, B_corners=Bc,
-                 B_near_upper_faces=Bn, large_capture_units=wide)
+                 B_near_upper_faces=Bn, B_radial=Br, large_capture_units=wide)
         R.count("asserted:%s" % asserted); R.count("lb:" + lbk); R.count("shape:%s" % ("under" if ns > nf else ("exact" if ns == nf else "over")))
         # representation of the arguments (implementation only): each twin is written independently; whole-number bounds mostly as integers
         rr = R.rng(2, si)
@@ -190,7 +214,11 @@ def run(R):
         else:
             h1 = np.asarray(h1); h2 = np.asarray(h2)
             R.count("membership-rows-compared-in-regime", int(inreg.sum())); R.count("membership-corner-rows-outside-regime(recorded)", int((~inreg).sum()))
-            nb = len(B) + len(Bc); hn = h1[nb:]
+            nb = len(B) + len(Bc); hn = h1[nb:nb + len(Bn)]; hr = h1[nb + len(Bn):]
+            box_lo = np.minimum(A * lb, A * ub).sum(1) + base; box_hi = np.maximum(A * lb, A * ub).sum(1) + base
+            inbox = np.all((Br >= box_lo) & (Br <= box_hi), axis=1)
+            R.count("radial-rows(corner captures moved by 1+-e about the gamut centre)", len(Br)); R.count("radial-rows:inside-bounding-box-of-gamut", int(inbox.sum()))
+            R.count("radial-rows:(1+e)-side:reported-in-gamut", int(hr[~side_r].sum())); R.count("radial-rows:(1-e)-side:reported-in-gamut", int(hr[side_r].sum()))
             R.count("near-upper-face-rows:outside-side", int((~side_n).sum())); R.count("near-upper-face-rows:outside-side:reported-in-gamut", int(hn[~side_n].sum()))
             R.count("near-upper-face-rows:inside-side", int(side_n.sum())); R.count("near-upper-face-rows:inside-side:reported-in-gamut", int(hn[side_n].sum()))
             if not np.array_equal(h1[inreg], h2[inreg]):
@@ -201,6 +229,35 @@ def run(R):
             elif not np.array_equal(h1, h2):
                 devs["in_hull_changed"] = 1.0
                 R.count("membership-changed-outside-regime(recorded)")
+        # membership in VERY large capture units (every asserted system): a third twin whose capture unit is 2^8 .. 2^13 (256 .. 8192 <=
+        # 1e4) times smaller and whose intensity unit is 1/4 .. 4 times larger, chosen so that its bounds stay in [0.05, 10]; its
+        # captures are >= 1 wherever the original's are (C15's regime has no upper limit on captures). Only gamut membership is
+        # asserted here (it is decided geometrically, there is no solver tolerance to scale), row by row where the original's captures
+        # lie in [1, 100]; all rows above take part (inside / outside with margin, corners, near the upper faces, radial).
+        if asserted and st1 == "ok":
+            c3 = 2.0 ** int(r4.integers(8, 14))
+            okS = [v for v in (0.25, 0.5, 2.0, 4.0) if float(np.max(ub)) / v <= 10 and float(np.min(ub)) / v >= 0.05
+                   and (not np.any(lb > 0) or float(np.min(lb[lb > 0])) / v >= 0.05)]
+            s3 = float(r4.choice(okS)) if okS else 1.0
+            A3 = A * (s3 * c3); lb3 = lb / s3; ub3 = ub / s3; base3 = base * c3; Bm3 = Bm * c3
+            inreg3 = (Bm.min(1) >= 1) & (Bm.max(1) <= 100)
+            R.count("very-large-capture-units-twin:c=2^%d" % int(np.log2(c3)))
+            (st3, h3) = call(in_hull_from_A, Bm3, as_given(r4, A3, R, "A"), as_given(r4, lb3, R, "lb"), as_given(r4, ub3, R, "ub"),
+                             baseline=as_given(r4, base3, R, "baseline"))
+            for e in drain():
+                if e["event"] == "in_hull":
+                    R.count("in_hull-path:very-large-capture-units:%s" % e.get("path"))
+            if st3 != "ok":
+                R.failB(dict(c, s3=s3, c3=c3, impl_error=h3), "gamut test raised in large capture units (s=%g, c=%g): %s" % (s3, c3, h3), sig + ":in_hull:raises:large-units")
+            else:
+                h3 = np.asarray(h3); h1 = np.asarray(h1)
+                R.count("very-large-capture-units:membership-rows-compared-in-regime", int(inreg3.sum()))
+                R.count("very-large-capture-units:radial-rows-in-regime", int(inreg3[len(B) + len(Bc) + len(Bn):].sum()))
+                if not np.array_equal(h1[inreg3], h3[inreg3]):
+                    R.failB(dict(c, s3=s3, c3=c3, targets=Bm[inreg3], original=h1[inreg3], twin=h3[inreg3]),
+                            "gamut membership changed under the unit change s=%g, c=%g: %s vs %s" % (s3, c3, h1[inreg3].tolist(), h3[inreg3].tolist()), sig + ":in_hull:large-units")
+                elif not np.array_equal(h1, h3):
+                    R.count("very-large-capture-units:membership-changed-outside-regime(recorded)")
         # fits
         # the Poisson model (model='poisson', default solver) is unit equivariant too: its objective sum b log(p) - p, p = A x + baseline,
         # is multiplied by c (plus a constant) when b, A and baseline are; A >= 0 and all targets are >= 1 here
@@ -263,6 +320,20 @@ def run(R):
                 b1 = [F(v) - F(b0) for v, b0 in zip(Bin[0], base)]; b2 = [F(v) - F(b0) for v, b0 in zip(Bin[0] * cc, base2)]
                 R.driver.ask("r1" + k, "range", ns, ms(AF), vs(b1), vs(lb), vs(ub)); R.driver.ask("r2" + k, "range", ns, ms(A2F), vs(b2), vs(lb2), vs(ub2))
                 c["_range_pair"] = True
+                if asserted and st1 == "ok":
+                    # the same targets in the very large capture units of the third twin: range enumeration is linear algebra on
+                    # the in-gamut targets (no solver tolerance), so the ends scale by 1/s there as well
+                    with warnings.catch_warnings():
+                        warnings.simplefilter("ignore")
+                        (sc3, rc3) = call(range_of_solutions, Bin * c3, A3, lb3, ub3, baseline=base3)
+                    if sc3 != "ok":
+                        R.failB(dict(c, s3=s3, c3=c3, impl_error=rc3), "range_of_solutions raised in large capture units only (s=%g, c=%g): %s" % (s3, c3, rc3), sig + ":range:raises:large-units")
+                    else:
+                        dv3 = max(float(np.max(np.abs(np.asarray(rc3[0]) * s3 - np.asarray(ra[0])) / (ub - lb))), float(np.max(np.abs(np.asarray(rc3[1]) * s3 - np.asarray(ra[1])) / (ub - lb))))
+                        R.count("very-large-capture-units:range-pairs")
+                        R.notes["very_large_capture_units_max_range_deviation"] = max(R.notes.get("very_large_capture_units_max_range_deviation", 0.0), dv3)
+                        if dv3 > 1e-8:
+                            R.failB(dict(c, s3=s3, c3=c3, original=ra, twin=rc3), "solution ranges do not scale by 1/s (s=%g, c=%g): deviation %.3g of the range" % (s3, c3, dv3), sig + ":range:large-units")
         if not asserted:
             stress.append(dict(s=s, c=cc, **devs))
         c["_s"] = s
